@@ -153,6 +153,34 @@ func VH_maxconn() {
 	vapi.Assert(l4proxy.VerifPeerState_(u, 0).NumConns == 0, "connection count did not return to zero")
 }
 
+// VH_limits: the real Upstream.provision with every combination of the upstream's own
+// max_connections and the handler-wide unhealthy_connection_count; the limit in force
+// is the upstream's own one when set, else the handler-wide default, else none; full()
+// follows the peer's connection count.
+func VH_limits() {
+	resetEnv()
+	m := vapi.Int("max_connections", 0, 3)
+	n := vapi.Int("unhealthy_connection_count", 0, 3)
+	u := &l4proxy.Upstream{Dial: []string{"10.0.0.5:80"}, MaxConnections: m}
+	var passive *l4proxy.PassiveHealthChecks
+	if vapi.Choice("passive configured", 2) == 1 {
+		passive = &l4proxy.PassiveHealthChecks{UnhealthyConnectionCount: n}
+	} else {
+		n = 0
+	}
+	_, err := l4proxy.VerifProvisionUpstream(u, passive)
+	vapi.Assert(err == nil, "provision failed")
+	limit := m
+	if limit == 0 {
+		limit = n
+	}
+	conns := vapi.Int("numconns", 0, 4)
+	l4proxy.VerifSetPeer(u, 0, l4proxy.VerifPeerState{NumConns: int32(conns)})
+	full := l4proxy.VerifFull(u)
+	vapi.Cover("limits provisioned")
+	vapi.Assert(full == (limit > 0 && conns >= limit), "an upstream is full exactly when its open connections have reached max_connections (or, without one, unhealthy_connection_count)")
+}
+
 // ---- C11 (b): active health check -------------------------------------------------------------------
 
 func VH_active() {
@@ -343,7 +371,7 @@ func VH_ppsend() {
 func init() {
 	for name, f := range map[string]func(){
 		"VH_maxconn": VH_maxconn, "VH_active": VH_active, "VH_failwindow": VH_failwindow, "VH_retry": VH_retry,
-		"VH_relay": VH_relay, "VH_ppsend": VH_ppsend,
+		"VH_relay": VH_relay, "VH_ppsend": VH_ppsend, "VH_limits": VH_limits,
 	} {
 		vapi.Register("c11."+name, f)
 	}
